@@ -239,6 +239,40 @@ def run(chk, facts, info):
              '(AdrCnt, CodeLen, BAsmCode, ...) only if the module itself or a core module assigns it: an encoding must '
              'not be built from what another target\'s generator left behind', min_instances=40)
     foreign_scratch_rule(chk, facts.program('asl'), 'C14-R5', only=set(FILES), min_instances=900)
+    chk.rule('C14-R9', 'codeavr.c: jump distances are word counts; the wrap masks CutAdr() applies to them (SignMask, ORMask) '
+             'are computed from a limit that is converted with CodeSegSize (the code segment limit is a byte limit when '
+             'the segment is addressed in bytes), and CutAdr() itself does not mask with SegLimits[] directly',
+             min_instances=3)
+    ua = facts.unit('codeavr.c')
+    n9 = 0
+    for f in ua.funcs.values():
+        if f.file != 'codeavr.c':
+            continue
+        for b, i, ln, m in f.nodes():
+            if is_assign(m) and m[1] == '=' and strip(m[2])[0] in ('gs', 'g') and strip(m[2])[1] in ('SignMask', 'ORMask'):
+                n9 += 1
+                exprs = [m[3]]
+                for x in walk(m[3]):
+                    if isinstance(x, (list, tuple)) and x and x[0] == 'l':
+                        for b2, i2, l2, d in f.nodes():
+                            if d[0] == 'decl' and d[1] == x[1] and d[2] is not None:
+                                exprs.append(d[2])
+                            elif is_assign(d) and strip(d[2]) == ('l', x[1]):
+                                exprs.append(d[3])
+                dep = any(mentions(e, lambda y: var_is(y, {'CodeSegSize'})) for e in exprs)
+                raw = mentions(m[3], lambda y: isinstance(y, (list, tuple)) and y and y[0] == 'i' and strip(y[1]) == ('g', 'SegLimits'))
+                ok = dep and not raw
+                chk.ob('C14-R9', 'codeavr.c:%s:%s' % (f.name, strip(m[2])[1]), ok, f.loc(ln),
+                       'derived from the word limit' if ok else
+                       '%s is computed from SegLimits[SegCode] without regard to CodeSegSize: with byte addressing the mask is one '
+                       'bit too wide and WRAPMODE no longer wraps ("rjmp 0" in the last word is rejected)' % strip(m[2])[1])
+    cf = facts.func('codeavr.c', 'CutAdr')
+    n9 += 1
+    rawc = any(m[0] == 'i' and strip(m[1]) == ('g', 'SegLimits') for b, i, ln, m in cf.nodes())
+    chk.ob('C14-R9', 'codeavr.c:CutAdr:mask', not rawc, cf.loc(), 'masks with the word masks' if not rawc else
+           'CutAdr() masks a word distance with the segment limit, which is a byte limit when CODESEGSIZE=0')
+    if n9 < 3:
+        raise AnalysisBroken('AVR wrap masks not found')
     chk.rule('C14-R8', 'in the seven code generators a displacement-overflow test does not compare just the sign bits of x and '
              'x +/- k ("(x & S) != (y & S)" with y = x - k): that also fires when x only changes sign through zero, i.e. for '
              'the legal displacements 0..k-1 (today no such test exists; the reversed repair of MSP430 RLA/RLC is the positive '
